@@ -816,6 +816,14 @@ else:
             patches = split_into_patches(chunk, self.patch_centers)
             self.patch_queue.put(patches)
 
+    class AbortQueue:
+        """Sentinel that tells the writer process to discard the catalog."""
+
+        pass
+
+    class WriterAborted(Exception):
+        pass
+
     @dataclass
     class WriterProcess(AbstractContextManager):
         """A dedicated writer process that recieves a dictionary with patch IDs
@@ -823,6 +831,7 @@ else:
         receiving :obj:`EndOfQueue` sentinel."""
 
         patch_queue: Queue[dict[int, TypeDataChunk] | EndOfQueue]
+        error_queue: Queue[Exception]
         cache_directory: Path | str
         chunk_info: DataChunkInfo = field(kw_only=True)
         overwrite: bool = field(default=True, kw_only=True)
@@ -836,25 +845,38 @@ else:
             self.start()
             return self
 
-        def __exit__(self, *args, **kwargs) -> None:
-            self.join()
+        def __exit__(self, exc_type=None, exc_value=None, traceback=None) -> None:
+            # always terminate the writer: end of input or abort after an error
+            failed = exc_type is not None
+            self.patch_queue.put(AbortQueue if failed else EndOfQueue)
+            self.join(reraise=not failed)
 
         def task(self) -> None:
-            with CatalogWriter(
-                self.cache_directory,
-                overwrite=self.overwrite,
-                chunk_info=self.chunk_info,
-                buffersize=self.buffersize,
-                num_patches=self.num_patches,
-            ) as writer:
-                while (patches := self.patch_queue.get()) is not EndOfQueue:
-                    writer.process_patches(patches)
+            try:
+                with CatalogWriter(
+                    self.cache_directory,
+                    overwrite=self.overwrite,
+                    chunk_info=self.chunk_info,
+                    buffersize=self.buffersize,
+                    num_patches=self.num_patches,
+                ) as writer:
+                    while (patches := self.patch_queue.get()) is not EndOfQueue:
+                        if patches is AbortQueue:
+                            raise WriterAborted
+                        writer.process_patches(patches)
+
+            except WriterAborted:
+                pass  # the error is reported by the process feeding the queue
+            except Exception as err:
+                self.error_queue.put(err)  # re-raised on join()
 
         def start(self) -> None:
             self.process.start()
 
-        def join(self) -> None:
+        def join(self, reraise: bool = True) -> None:
             self.process.join()
+            if reraise and not self.error_queue.empty():
+                raise self.error_queue.get()
 
     def write_patches(
         path: Path | str,
@@ -921,6 +943,7 @@ else:
             multiprocessing.Pool(max_workers) as pool,
         ):
             patch_queue = manager.Queue()
+            error_queue = manager.Queue()
 
             if patch_centers is not None:
                 patch_centers = get_patch_centers(patch_centers)
@@ -928,6 +951,7 @@ else:
 
             with WriterProcess(
                 patch_queue,
+                error_queue,
                 cache_directory=path,
                 chunk_info=reader.copy_chunk_info(drop_patch_ids=True),
                 overwrite=overwrite,
@@ -937,8 +961,6 @@ else:
                 chunk_iter = Indicator(reader) if progress else iter(reader)
                 for chunk in chunk_iter:
                     pool.map(chunk_processing_task, np.array_split(chunk, max_workers))
-
-                patch_queue.put(EndOfQueue)
 
 
 class Catalog(Mapping[int, Patch]):
